@@ -102,7 +102,11 @@ func (rg *rootGeneratorSimple) generateIter() func(yield func(*Node, error) bool
 			}
 		}
 
-		yield(root, rg.scanner.Err()) // 最後のブロックのrootを返却
+		// 最後のブロックのrootを返却
+		// 入力にrootが1つも無い(空入力/空行のみ)場合は何も返さない
+		if err := rg.scanner.Err(); err != nil || root != nil {
+			yield(root, err)
+		}
 	}
 }
 
